@@ -57,7 +57,7 @@ Proof.
   destruct (res <? 0) eqn:E1; [|lia]. destruct (res =? - eidrm) eqn:E2; [lia|]. reflexivity.
 Qed.
 
-Lemma eidrm_ok : Verif.gen.Consts_rbow.RBO_EIDRM <> RB_ETIMEDOUT /\ 0 < Verif.gen.Consts_rbow.RBO_EIDRM.
+Lemma eidrm_ok : RBO_EIDRM <> RB_ETIMEDOUT /\ 0 < RBO_EIDRM.
 Proof. vm_compute. split; [discriminate | reflexivity]. Qed.
 
 (* an operation list with timed waits behaves exactly like the list with the waits replaced by ms_timeout = 0:
@@ -73,4 +73,10 @@ Proof.
     - rewrite (peek_w_is_peek eidrm b res Hne Hpos Hco). reflexivity. }
   rewrite Hstep in *. destruct (step b (untimed o)) as (b1, x). cbn [fst] in Hct.
   rewrite (IH b1 Hne Hpos Hct). reflexivity.
+Qed.
+
+Lemma consistent_answer_ok : forall b, wait_consistent b (consistent_answer b).
+Proof.
+  intros b. unfold wait_consistent, consistent_answer. destruct (sem b) as [c|]; [|exact I].
+  destruct (0 <? c) eqn:E; [left | right]; split; try reflexivity; lia.
 Qed.
